@@ -169,13 +169,66 @@ func parseFloat64(buf []byte) (f float64) {
 	return
 }
 
-// xmlEntities are the five predefined XML entities.
-var xmlEntities = strings.NewReplacer("&lt;", "<", "&gt;", ">", "&quot;", "\"", "&apos;", "'", "&amp;", "&")
+// unescape replaces, in one pass from left to right, the five predefined XML
+// entities and the character references &#N; / &#xH; by the characters they
+// stand for. Anything else that starts with '&' is kept as it is.
+func unescape(s string) string {
+	var sb strings.Builder
+	sb.Grow(len(s))
+	for i := 0; i < len(s); {
+		if s[i] != '&' {
+			sb.WriteByte(s[i])
+			i++
+			continue
+		}
+		end := strings.IndexByte(s[i:], ';')
+		if end < 2 || end > 10 {
+			sb.WriteByte(s[i])
+			i++
+			continue
+		}
+		name := s[i+1 : i+end]
+		r := rune(-1)
+		switch name {
+		case "lt":
+			r = '<'
+		case "gt":
+			r = '>'
+		case "quot":
+			r = '"'
+		case "apos":
+			r = '\''
+		case "amp":
+			r = '&'
+		default:
+			if name[0] == '#' && len(name) > 1 {
+				var n uint64
+				var err error
+				if name[1] == 'x' {
+					n, err = strconv.ParseUint(name[2:], 16, 32)
+				} else {
+					n, err = strconv.ParseUint(name[1:], 10, 32)
+				}
+				if err == nil && n > 0 && n <= 0x10ffff {
+					r = rune(n)
+				}
+			}
+		}
+		if r < 0 {
+			sb.WriteByte(s[i])
+			i++
+			continue
+		}
+		sb.WriteRune(r)
+		i += end + 1
+	}
+	return sb.String()
+}
 
 // parseString parses a []byte and returns a string
 func parseString(buf []byte) string {
 	if bytes.IndexByte(buf, '&') >= 0 {
-		return xmlEntities.Replace(string(buf))
+		return unescape(string(buf))
 	}
 	return string(buf)
 }
